@@ -52,11 +52,13 @@ impl MultiPattern {
         let old_status = self.cols[column].1;
         if append
             && old_status != Status::Rescore
-            && self.cols[column]
-                .0
-                .atoms
-                .last()
-                .map_or(true, |last| !last.negative)
+            && self.cols[column].0.atoms.last().map_or(true, |last| {
+                !last.negative
+                        // a trailing `$` (postfix/exact marker) or `\` (escape) of the old
+                        // text gets a different meaning once text is appended to it
+                        && !matches!(last.kind, AtomKind::Postfix | AtomKind::Exact)
+                        && last.needle_text().chars().next_back() != Some('\\')
+            })
         {
             self.cols[column].1 = Status::Update;
         } else {
